@@ -192,9 +192,10 @@ func (n *Network) edgeBetween(uid, vid int64, directed bool) *Link {
 						// make sure that control node is on the outgoing side
 						if uNode != nil {
 							return incoming
-						} else {
-							return nil
 						}
+						// the query starts at the control node: its outgoing links decide (the ordinary
+						// node may be an input AND an output of this module)
+						break
 					}
 				}
 			}
